@@ -1557,8 +1557,16 @@ class TreeRun:
         """After a close: nothing in the file mentions a removed entity (plain h5py view)."""
         snap = rawsnap(str(wd.path))
         gone = {("{" + g + "}").lower(): g for g in self.removed if g not in wd.nodes}
+        # an identifier that was removed and then used again for an entity of another kind: the node left in the OLD
+        # container is still the removed entity's
+        container_of = {"group": "Groups", "object": "Objects", "data": "Data"}
+        reused = {("{" + g + "}").lower(): g for g in self.removed if g in wd.nodes}
         for cname, nodes in snap["containers"].items():
             for uid, node in nodes.items():
+                if uid.lower() in reused and container_of.get(wd.kind.get(reused[uid.lower()])) != cname:
+                    cls, via, mode = self.removed[reused[uid.lower()]]
+                    self.fail("C05", "file-node-remains", "remove_" + via, cls, f"{cname}:{mode}", f"{cname}/{uid} still in the file after removal and close (its identifier is in use again, in another container)")
+                    return
                 if uid.lower() in gone:
                     cls, via, mode = self.removed[gone[uid.lower()]]
                     self.fail("C05", "file-node-remains", "remove_" + via, cls, f"{cname}:{mode}", f"{cname}/{uid} still in the file after removal and close")
